@@ -163,7 +163,8 @@ def compare(sess, o):
 
 TEXTS = ["hello world", "foo bar-baz qux", "a  b", "x", "ls -la /tmp", "(a.b) c", "one\\ two", "echo 'a b' \"c d\"",
          "  lead", "trail  ", "a.b.c", "word", "if (x[1] == {y}) z"]
-HTEXTS = ["héllo wörld", "日本語 テキスト", "a\nb c\nd", "first line\n\nthird", "tab\there", "emoji 😀 end", "x\n", "é"]
+HTEXTS = ["héllo wörld", "日本語 テキスト", "a\nb c\nd", "first line\n\nthird", "tab\there", "emoji 😀 end", "x\n", "é",
+          "é\na", "éé\nab", "日本\nabcd", "é\n\ncd", "hello world\nsecond line", "éa"]
 
 EM_MOVES = ["forward-char", "backward-char", "forward-word", "backward-word", "beginning-of-line", "end-of-line"]
 EM_KILLS = ["kill-line", "backward-kill-line", "kill-whole-line", "kill-word", "backward-kill-word", "kill-region"]
